@@ -26,6 +26,9 @@ pub enum Term {
     DropWith(u8),
     /// with_finish(k), wrap_iter / progress_with over n items consumed to the end
     IterExhaust(u8, u8, bool),
+    /// with_finish(k), n items consumed from the back (mode 0: `.rev()`, 1: next_back() until None,
+    /// 2: alternating next()/next_back() until both are exhausted)
+    IterExhaustBack(u8, u8, u8),
 }
 
 #[derive(Debug, Clone, Serialize, Deserialize)]
@@ -44,6 +47,10 @@ pub struct SingleCase {
     /// after the terminator: reset() and complete once more with the *stored* finish behaviour
     #[serde(default)]
     again: Option<Again>,
+    /// the prior history ends with an explicit finish/abandon call of this kind: the terminator is
+    /// applied to an already finished bar ("for every prior history")
+    #[serde(default)]
+    prior_finish: Option<u8>,
 }
 
 #[derive(Debug, Clone, Serialize, Deserialize)]
@@ -117,6 +124,27 @@ fn run_single(c: &SingleCase) -> CaseResult {
             _ => {}
         }
     }
+    // "every prior history": the bar may already be finished in another way when the terminator comes
+    let mut refinish = false;
+    if let Some(k1) = c.prior_finish {
+        if matches!(c.term, Term::Finish | Term::FinishWithMessage(_) | Term::FinishAndClear | Term::Abandon | Term::AbandonWithMessage(_) | Term::FinishUsingStyle(_)) {
+            let mut f1 = st.clone();
+            finish_model(&mut f1, k1);
+            if height_of(&f1.frame(), cols) <= rows {
+                clock::advance(Duration::from_millis(c.step_ms as u64));
+                catch(|| match k1 % 5 {
+                    0 => pb.finish(),
+                    1 => pb.finish_with_message("fin"),
+                    2 => pb.finish_and_clear(),
+                    3 => pb.abandon(),
+                    _ => pb.abandon_with_message("abn"),
+                })
+                .map_err(|p| Fail::new("panic", format!("prior finish {k1} panicked: {p}")))?;
+                st = f1;
+                refinish = true;
+            }
+        }
+    }
     // is the limiter exhausted right now? (an ordinary tick paints nothing)
     let f0 = vt.nflush();
     pb.tick();
@@ -130,12 +158,12 @@ fn run_single(c: &SingleCase) -> CaseResult {
         Term::FinishAndClear => 2,
         Term::Abandon => 3,
         Term::AbandonWithMessage(_) => 4,
-        Term::FinishUsingStyle(k) | Term::DropWith(k) | Term::IterExhaust(k, ..) => *k % 5,
+        Term::FinishUsingStyle(k) | Term::DropWith(k) | Term::IterExhaust(k, ..) | Term::IterExhaustBack(k, ..) => *k % 5,
     };
     finish_model(&mut fin, k_of(&c.term));
     match &c.term {
         Term::FinishWithMessage(m) | Term::AbandonWithMessage(m) => fin.msg = m.clone(),
-        Term::IterExhaust(_, n, _) => {
+        Term::IterExhaust(_, n, _) | Term::IterExhaustBack(_, n, _) => {
             // the items are counted first
             if !matches!(k_of(&c.term), 0 | 1 | 2) || fin.len.is_none() {
                 fin.pos = st.pos.wrapping_add(*n as u64);
@@ -185,12 +213,43 @@ fn run_single(c: &SingleCase) -> CaseResult {
             assert_eq!(got, items);
             handle = Some(pb.clone());
         }
+        Term::IterExhaustBack(k, n, mode) => {
+            pb = pb.clone().with_finish(finish_of(*k));
+            let items: Vec<u8> = (0..*n).collect();
+            let mut it = pb.wrap_iter(items.clone().into_iter());
+            let mut got = vec![];
+            match mode % 3 {
+                0 => got.extend(it.rev()),
+                1 => {
+                    while let Some(x) = it.next_back() {
+                        got.push(x);
+                    }
+                }
+                _ => loop {
+                    let (a, b) = (it.next(), it.next_back());
+                    got.extend(a);
+                    got.extend(b);
+                    if a.is_none() && b.is_none() {
+                        break;
+                    }
+                },
+            }
+            assert_eq!(got.len(), items.len());
+            handle = Some(pb.clone());
+        }
     })
     .map_err(|p| Fail::new("panic", format!("terminator {:?} panicked: {p}", c.term)))?;
     let is_drop = matches!(c.term, Term::DropWith(_));
     let ctx = format!(
-        "terminator {:?} after {} burn ticks, prior {:?} (hz {:?}, step {} ms, limiter exhausted: {exhausted}, {}x{} terminal)",
-        c.term, c.burn, c.prior, c.hz, c.step_ms, rows, cols
+        "terminator {:?} after {} burn ticks, prior {:?}{} (hz {:?}, step {} ms, limiter exhausted: {exhausted}, {}x{} terminal)",
+        c.term,
+        c.burn,
+        c.prior,
+        if refinish { format!(" and then an explicit finish of kind {}", c.prior_finish.unwrap() % 5) } else { String::new() },
+        c.hz,
+        c.step_ms,
+        rows,
+        cols
     );
     if !is_drop {
         let h = handle.as_ref().unwrap();
@@ -202,7 +261,7 @@ fn run_single(c: &SingleCase) -> CaseResult {
         if let Some(again) = &c.again {
             // reset and complete a second time: the stored finish behaviour must still apply
             let stored = match &c.term {
-                Term::FinishUsingStyle(k) | Term::IterExhaust(k, ..) => *k % 5,
+                Term::FinishUsingStyle(k) | Term::IterExhaust(k, ..) | Term::IterExhaustBack(k, ..) => *k % 5,
                 _ => 2,
             };
             let h = handle.take().unwrap();
@@ -244,7 +303,7 @@ fn run_single(c: &SingleCase) -> CaseResult {
                 c01::check_screen(&vt.rows(), None, &log, &st2.frame(), cols, &ctx2).map_err(|f| Fail::new("final_frame_second_completion", f.msg))?;
                 v.label("second_completion_after_reset");
             }
-            v.nontrivial = exhausted;
+            v.nontrivial = exhausted || refinish;
             return Ok(v);
         }
         // dropping the finished bar changes nothing on screen
@@ -257,7 +316,8 @@ fn run_single(c: &SingleCase) -> CaseResult {
         ensure!(vt.nflush() > flush_before && vt.ncalls() > calls_before, "no_final_frame", "{ctx}: dropping the last handle of the unfinished bar painted nothing");
         c01::check_screen(&vt.rows(), None, &log, &fin.frame(), cols, &ctx).map_err(|f| Fail::new("final_frame", f.msg))?;
     }
-    v.nontrivial = exhausted;
+    v.nontrivial = exhausted || refinish;
+    v.label_if(refinish, "terminator_on_already_finished_bar");
     v.label_if(exhausted, "limiter_exhausted_at_terminator");
     v.label_if(!exhausted, "limiter_not_exhausted");
     v.label(match c.term {
@@ -265,6 +325,7 @@ fn run_single(c: &SingleCase) -> CaseResult {
         Term::FinishUsingStyle(_) => "finish_using_style",
         Term::DropWith(_) => "drop_last_handle",
         Term::IterExhaust(..) => "iterator_exhausted",
+        Term::IterExhaustBack(..) => "iterator_exhausted_from_the_back",
     });
     v.label_if(k_of(&c.term) == 2, "clearing_variant");
     Ok(v)
@@ -281,6 +342,7 @@ fn single_strategy(tier: Tier) -> BoxedStrategy<SingleCase> {
         (0u8..5).prop_map(Term::FinishUsingStyle),
         (0u8..5).prop_map(Term::DropWith),
         (0u8..5, 0u8..6, any::<bool>()).prop_map(|(k, n, w)| Term::IterExhaust(k, n, w)),
+        (0u8..5, 0u8..6, 0u8..3).prop_map(|(k, n, m)| Term::IterExhaustBack(k, n, m)),
     ];
     (3u8..=10, 6u8..=40)
         .prop_flat_map(move |(rows, cols)| {
@@ -294,10 +356,10 @@ fn single_strategy(tier: Tier) -> BoxedStrategy<SingleCase> {
                 proptest::collection::vec(c01::bop_strategy(cols as usize), 0..n),
                 prop_oneof![3 => Just(0u32), 1 => Just(1u32), 1 => Just(100u32)],
                 term.clone(),
-                proptest::option::weighted(0.3, prop_oneof![Just(Again::FinishUsingStyle), Just(Again::Drop), (0u8..5).prop_map(Again::IterExhaust)]),
+                (proptest::option::weighted(0.3, prop_oneof![Just(Again::FinishUsingStyle), Just(Again::Drop), (0u8..5).prop_map(Again::IterExhaust)]), proptest::option::weighted(0.25, 0u8..5)),
             )
         })
-        .prop_map(|(rows, cols, len, tpl, hz, burn, prior, step_ms, term, again)| SingleCase { rows, cols, len, tpl, hz, burn, prior, step_ms, term, again })
+        .prop_map(|(rows, cols, len, tpl, hz, burn, prior, step_ms, term, (again, prior_finish))| SingleCase { rows, cols, len, tpl, hz, burn, prior, step_ms, term, again, prior_finish })
         .boxed()
 }
 
@@ -426,7 +488,7 @@ pub fn property() -> Property {
                 cases: |t| t.pick(5_000, 1_000_000),
                 run: run_single,
                 signature: no_signature,
-                essential: &["limiter_exhausted_at_terminator", "limiter_not_exhausted", "explicit_call", "finish_using_style", "drop_last_handle", "iterator_exhausted", "clearing_variant", "second_completion_after_reset"],
+                essential: &["limiter_exhausted_at_terminator", "limiter_not_exhausted", "explicit_call", "finish_using_style", "drop_last_handle", "iterator_exhausted", "iterator_exhausted_from_the_back", "terminator_on_already_finished_bar", "clearing_variant", "second_completion_after_reset"],
                 workers: w,
                 decode: None,
             }),
